@@ -590,6 +590,103 @@ def _helper_aliases(f, helpers):
     return out
 
 
+# ---------------------------------------------------------------------------- C03.7 / C03.8
+def detached_leaves_stack(ctx):
+    """C03.7: a node that is detached from the tree while it sits on the stack of open elements (`removeChild(openElements[i])`)
+    is followed, on every path, by a truncation of the stack that removes index i: a loop popping down to the html sentinel,
+    or `del openElements[i:]`.  Otherwise later insertions go into the detached node and the document loses body/frameset."""
+    r = ctx.r
+    n = 0
+    for f in ctx.repo.module(PARSER_REL).all_functions:
+        for c in walk_no_nested(f.node):
+            if not (isinstance(c, ast.Call) and isinstance(c.func, ast.Attribute) and c.func.attr == "removeChild" and c.args):
+                continue
+            a = c.args[0]
+            if not (isinstance(a, ast.Subscript) and (attr_chain(a.value) or [""])[-1] == "openElements" and isinstance(a.slice, ast.Constant)):
+                continue
+            idx = a.slice.value
+            n += 1
+            cfg = CFG(f.node)
+
+            def truncates(x, idx=idx):
+                if x.kind == "test" and isinstance(x.ast, ast.Compare) and "openElements[-1].name" in norm(x.ast.left) \
+                        and isinstance(x.ast.ops[0], ast.NotEq) and norm(x.ast.comparators[0]) == "'html'" and idx == 1:
+                    # loop header of `while openElements[-1].name != "html": pop()`
+                    return any(isinstance(cc.func, ast.Attribute) and cc.func.attr == "pop" for m, lab in x.succ if lab is True
+                               for cc in node_calls(m))
+                if x.kind == "stmt" and isinstance(x.ast, ast.Delete):
+                    t = x.ast.targets[0]
+                    if isinstance(t, ast.Subscript) and (attr_chain(t.value) or [""])[-1] == "openElements" and isinstance(t.slice, ast.Slice):
+                        lo = t.slice.lower
+                        return isinstance(lo, ast.Constant) and lo.value == idx and t.slice.upper is None
+                return False
+            bad = cfg.must_follow(cfg.locate(c), truncates)
+            r.check("C03.7", not bad, "detached-leaves-stack::%s" % f.qual, "%s:%d" % (PARSER_REL, c.lineno),
+                    "openElements[%s] is detached from the tree but can stay on the stack of open elements: later elements are "
+                    "inserted into the detached node (the document ends up without body/frameset)" % idx, detail={"function": f.qual})
+    if n < 1:
+        raise AnalysisError("C03.7: no removeChild(openElements[i]) site found")
+
+
+def none_use(ctx):
+    """C03.8 (contradiction rule): a local that is initialised to None and tested for truth somewhere is never used as a
+    receiver (`v.attr`) or as the argument of `.index(v)` on a path on which it can still be None."""
+    r = ctx.r
+    n = 0
+    for rel in (PARSER_REL, "treebuilders/base.py"):
+        for f in ctx.repo.module(rel).all_functions:
+            inits = {}
+            for s in walk_no_nested(f.node):
+                if isinstance(s, ast.Assign) and isinstance(s.value, ast.Constant) and s.value.value is None:
+                    for t in s.targets:
+                        if isinstance(t, ast.Name):
+                            inits[t.id] = s
+            if not inits:
+                continue
+            cfg = None
+            for v in sorted(inits):
+                tested = any(isinstance(x, ast.If) and any(isinstance(y, ast.Name) and y.id == v for y in ast.walk(x.test))
+                             for x in ast.walk(f.node))
+                if not tested:
+                    continue
+                uses = []
+                for x in walk_no_nested(f.node):
+                    if isinstance(x, ast.Attribute) and isinstance(x.value, ast.Name) and x.value.id == v and isinstance(x.ctx, ast.Load):
+                        uses.append(x)
+                    elif isinstance(x, ast.Call) and isinstance(x.func, ast.Attribute) and x.func.attr == "index" and x.args \
+                            and isinstance(x.args[0], ast.Name) and x.args[0].id == v:
+                        uses.append(x)
+                if not uses:
+                    continue
+                cfg = cfg or CFG(f.node)
+
+                def safe_edge(m, lab, v=v):
+                    if m.kind == "test":
+                        t = norm(m.ast)
+                        if t == v and lab is True:
+                            return True
+                        if t in ("%s is not None" % v,) and lab is True:
+                            return True
+                        if t in ("%s is None" % v, "not %s" % v) and lab is False:
+                            return True
+                    if m.kind == "stmt" and isinstance(m.ast, ast.Assign) and any(isinstance(t, ast.Name) and t.id == v for t in m.ast.targets) \
+                            and not (isinstance(m.ast.value, ast.Constant) and m.ast.value.value is None):
+                        return True
+                    if m.kind == "loopiter" and any(isinstance(t, ast.Name) and t.id == v for t in ast.walk(m.ast.target)) and lab is True:
+                        return True
+                    return False
+                for u in uses:
+                    n += 1
+                    nodes = cfg.locate(u)
+                    # a use inside the very test that checks it (`v and v.parent`) is handled by the short-circuit edges
+                    ok = bool(nodes) and all(cfg.dominated_by(nd, safe_edge) for nd in nodes)
+                    r.check("C03.8", ok, "none-use::%s::%s::%s" % (f.qual, v, norm(u)[:40]), "%s:%d" % (rel, u.lineno),
+                            "`%s` can still be None where `%s` is evaluated (it is initialised to None and tested elsewhere): "
+                            "AttributeError / ValueError on that path" % (v, norm(u)[:60]), detail={"variable": v})
+    if n < 5:
+        raise AnalysisError("C03.8 matched %d uses" % n)
+
+
 # ---------------------------------------------------------------------------- C03.6
 def dispatch_total(ctx):
     r = ctx.r
@@ -626,11 +723,15 @@ def run(ctx):
     r.rule("C03.2", "call-graph SCCs of tree construction are in the allow-table of input-independent depth", floor=3)
     r.rule("C03.4", "skeleton: one root creator; html/head/body created only by the standard's handlers; no text above body", floor=15)
     r.rule("C03.5", "pop loops / deep indexes on the open-element stack are dominated by a scope test or sentinel", floor=20)
+    r.rule("C03.7", "a node detached from the tree while on the stack of open elements is removed from the stack on every path", floor=1)
+    r.rule("C03.8", "a local initialised to None and tested elsewhere is not dereferenced on a path on which it can be None", floor=5)
     r.rule("C03.6", "every phase has a concrete handler for every token kind and tag name", floor=100)
     constkey(ctx)
     recursion(ctx)
     skeleton(ctx)
     pop_guard(ctx)
+    detached_leaves_stack(ctx)
+    none_use(ctx)
     dispatch_total(ctx)
     from . import c03_tok
     c03_tok.run(ctx)
@@ -674,6 +775,10 @@ def mutants():
           "            self.stream.unget(data)\n            self.state = self.afterAttributeValueState\n        return True\n\n    def selfClosingStartTagState", "C03.3"),
         T("tok-eof-loop", "_tokenizer.py", "        elif data is EOF:\n            self.tokenQueue.append({\"type\": tokenTypes[\"ParseError\"], \"data\":\n                                    \"eof-in-tag-name\"})\n            self.state = self.dataState",
           "        elif data is EOF:\n            self.tokenQueue.append({\"type\": tokenTypes[\"ParseError\"], \"data\":\n                                    \"eof-in-tag-name\"})", "C03.3"),
+        T("frameset-keeps-body-on-stack", "html5parser.py", "            while self.tree.openElements[-1].name != \"html\":\n                self.tree.openElements.pop()\n            self.tree.insertElement(token)\n            self.parser.phase = self.parser.phases[\"inFrameset\"]",
+          "            del self.tree.openElements[2:]\n            self.tree.insertElement(token)\n            self.parser.phase = self.parser.phases[\"inFrameset\"]", "C03.7"),
+        T("none-deref", "treebuilders/base.py", "            if lastTable.parent:\n                fosterParent = lastTable.parent", "            if lastTable.parent or fosterParent.parent:\n                fosterParent = lastTable.parent", "C03.8"),
+        T("cdata-no-eof-exit", "_tokenizer.py", "            if char == EOF:\n                break\n            else:\n                assert char == \">\"", "            if False:\n                break\n            else:\n                pass", "C03.3"),
         T("variant-typo", "html5parser.py", 'return not self.tree.elementInScope("tr", variant="table")', 'return not self.tree.elementInScope("tr", variant="tables")', "C03.1"),
     ]
 
@@ -683,6 +788,8 @@ def preserving():
     return [
         T("loop-instead", "html5parser.py", '            node = self.tree.openElements.pop()\n            while node.name != "select":\n                node = self.tree.openElements.pop()\n',
           '            while self.tree.openElements.pop().name != "select":\n                pass\n', None),
+        T("frameset-del-slice", "html5parser.py", "            while self.tree.openElements[-1].name != \"html\":\n                self.tree.openElements.pop()\n            self.tree.insertElement(token)\n            self.parser.phase = self.parser.phases[\"inFrameset\"]",
+          "            del self.tree.openElements[1:]\n            self.tree.insertElement(token)\n            self.parser.phase = self.parser.phases[\"inFrameset\"]", None),
         T("reorder-dispatch", "html5parser.py", '        ("html", startTagHtml),\n        ("body", startTagBody),\n        ("frameset", startTagFrameset),',
           '        ("body", startTagBody),\n        ("html", startTagHtml),\n        ("frameset", startTagFrameset),', None),
     ]
